@@ -47,7 +47,7 @@ CLAIMS = {
          "MIR dataflow + polynomial identity of seed indices + iterator-shape matching", True),
 
  "C11": ("other",
-         "On MIR of every HAL shape function of the reference and AVX crates (operands paired with their *_col argument): overwrite-type operations hand every limb of [0, res.size()) to a kernel on every returning path - decided exactly by evaluating the min/max range bounds over every ordering of the operand sizes (148 functions covered, 18 outside the limb-range idiom listed as undecided); a conditional limb write needs another write for the same limb; every accessor on operand X uses column X_col (371 sites, polynomial identity); no store goes through a pointer derived from a read-only operand; core noise-free operations write every result column; raw-slice kernels taking limb_offset zero-fill from exactly one stride after the last written limb (WR-4); every mutable use of a column-selected output operand is column-selective (WR-5); carry buffers of the shift / normalisation functions are written before they are read on every feasible path, zero-trip loops included (WR-6); core operations read an operand only at columns below its own rank + 1 (COL-2); thorough tier: compile-fail witness that a read-only view cannot hand out mutable limbs. Bytes inside a limb (kernel contracts) are not decided.",
+         "On MIR of every HAL shape function of the reference and AVX crates (operands paired with their *_col argument): overwrite-type operations hand every limb of [0, res.size()) to a kernel on every returning path - decided exactly by evaluating the min/max range bounds over every ordering of the operand sizes (148 functions covered, 18 outside the limb-range idiom listed as undecided); a conditional limb write needs another write for the same limb; every accessor on operand X uses column X_col (371 sites, polynomial identity); no store goes through a pointer derived from a read-only operand; core noise-free operations write every result column; raw-slice kernels taking limb_offset zero-fill from exactly one stride after the last written limb (WR-4); every mutable use of a column-selected output operand is column-selective (WR-5); carry buffers of the shift / normalisation functions are written before they are read on every feasible path, zero-trip loops included (WR-6); core operations read an operand only at columns below its own rank + 1 (COL-2); block extraction into an output covers every row of the destination block (WR-7); thorough tier: compile-fail witness that a read-only view cannot hand out mutable limbs. Bytes inside a limb (kernel contracts) are not decided.",
          "DESIGN.md §3 C11, §8",
          "Trusted: kernels write the whole limb slice they are given; unknown guards are assumed falsifiable.",
          "MIR loop/range extraction + exact min/max lattice evaluation of limb coverage + column polynomial identity", True),
@@ -63,7 +63,7 @@ CLAIMS = {
          "shared limb/column coverage analysis + call-set comparison of assign twins", True),
 
  "C12": ("other",
-         "Structural scratch accounting on MIR. SC-1: for the 438 (operation, companion) pairs whose size query mirrors the operation's nesting of takes (found through the entry guards or by name, frozen in rules/sc1_pairs.json), the scratch chain of the operation is simulated on every path (takes accumulate, consumers need their own declared companion, closures and un-companioned helpers inlined) and every demand monomial must be contained - as a multiset of size-atom kinds, nested queries expanded - in a monomial of the companion's max-plus expression on every compatible path; HAL queries stay uninterpreted so the verdict covers every backend. SC-2: entry guards name the operation's own (family) companion. SC-3: on every path the first effective use of an object taken from scratch initialises it (path-sensitive typestate over 220+ take sites, closures followed, interprocedural per-parameter summaries, set_size-before-write tracked so that 'written at a reduced size, grown, accumulated' is reported). SC-4: takes that cannot be 64-byte multiples followed by another consumer must be padded by the companion. SC-5: only the scratch carver builds scratch views from raw bytes. SC-6: a temporary created from a layout literal and handed to a nested operation is declared by the nested query on a literal with dominated fields. SC-7: at size-query call sites a role-named usize argument sits in the parameter position of that name (declared trait names). SC-8: every operand whose size a mirror-form take grows with occurs in the companion's term of the same kind. Thorough tier: compile-fail witnesses for scratch carving and dangling temporaries. Argument-level arithmetic of the size queries and pairs not in mirror form are not decided.",
+         "Structural scratch accounting on MIR. SC-1: for the 438 (operation, companion) pairs whose size query mirrors the operation's nesting of takes (found through the entry guards or by name, frozen in rules/sc1_pairs.json), the scratch chain of the operation is simulated on every path (takes accumulate, consumers need their own declared companion, closures and un-companioned helpers inlined) and every demand monomial must be contained - as a multiset of size-atom kinds, nested queries expanded - in a monomial of the companion's max-plus expression on every compatible path; HAL queries stay uninterpreted so the verdict covers every backend. SC-2: entry guards name the operation's own (family) companion. SC-3: on every path the first effective use of an object taken from scratch initialises it (path-sensitive typestate over 220+ take sites, closures followed, interprocedural per-parameter summaries, set_size-before-write tracked so that 'written at a reduced size, grown, accumulated' is reported). SC-4: takes that cannot be 64-byte multiples followed by another consumer must be padded by the companion. SC-5: only the scratch carver builds scratch views from raw bytes. SC-6: a temporary created from a layout literal and handed to a nested operation is declared by the nested query on a literal with dominated fields. SC-7: at size-query call sites a role-named usize argument sits in the parameter position of that name (declared trait names). SC-8: every operand whose size a mirror-form take grows with occurs in the companion's term of the same kind. SC-9: vectors of temporaries alive together are paid for by the companion. Thorough tier: compile-fail witnesses for scratch carving and dangling temporaries. Argument-level arithmetic of the size queries and pairs not in mirror form are not decided.",
          "DESIGN.md §3 C12, §8, §9",
          "Trusted: modular assumption (each callee meets its own declaration), monotone size queries; mirror-form table frozen from the reference tree.",
          "max-plus symbolic accounting over MIR paths + path-sensitive typestate of scratch temporaries", True),
@@ -75,13 +75,13 @@ CLAIMS = {
          "MIR dominator-based guard analysis + interprocedural must-define summary + comparison-chain consistency", True),
 
  "C17": ("other",
-         "The structural invariants the unchecked accessors rely on, decided on MIR: the raw offset of at_ptr/at_mut_ptr plus the limb length stays within n*cols*size under unconditional index asserts (polynomial identity after substituting the asserted maxima), at/raw build slices of exactly n / n*poly_count scalars; every one of the 86 construction sites of the nine layout types and the 19 from_data call sites wraps data with dimensions consistent with it (re-view without altered dimensions, allocation / take_slice of bytes_of of the very same dims, checked sub-slice); dimension fields are mutated only by set_size (guarded by max_size) and the readers (validated, shared with C18) inside the library (the fields are pub, so this says nothing about other crates); block-extraction kernels read a number of rows bounded by the limbs of the source view, followed up the call chain to the take (MS-8); scratch carving ownership, no store through read-only operands, handle immutability (shared rules). Admissibility preconditions and SIMD butterfly index arithmetic are not decided.",
+         "The structural invariants the unchecked accessors rely on, decided on MIR: the raw offset of at_ptr/at_mut_ptr plus the limb length stays within n*cols*size under unconditional index asserts (polynomial identity after substituting the asserted maxima), at/raw build slices of exactly n / n*poly_count scalars; every one of the 86 construction sites of the nine layout types and the 19 from_data call sites wraps data with dimensions consistent with it (re-view without altered dimensions, allocation / take_slice of bytes_of of the very same dims, checked sub-slice); dimension fields are mutated only by set_size (guarded by max_size) and the readers (validated, shared with C18) inside the library (the fields are pub, so this says nothing about other crates); block-extraction kernels read a number of rows bounded by the limbs of the source view, followed up the call chain to the take (MS-8); the scratch carver's sub-slices end inside the buffer it splits (MS-9, polynomial inequality over usize quantities); scratch carving ownership, no store through read-only operands, handle immutability (shared rules). Admissibility preconditions and SIMD butterfly index arithmetic are not decided.",
          "DESIGN.md §3 C17, §8",
          "Trusted: objects built by the enumerated idioms satisfy n*cols*size*size_of(Scalar) <= data.len(); kernel-internal index arithmetic.",
          "MIR polynomial bound check of accessor offsets + construction/mutation site idiom matching + shared taint/ownership rules", True),
 
  "C10": ("other",
-         "Wiring agreement on MIR of the AVX configuration the test suite never compiles: all 208 HalImpl methods of the Ref and AVX backend of each family forward to the same shared shape function (one reasoned exception); kernel-trait tables agree and each of ~100 AVX kernel methods is the twin of the Ref kernel (same function, falls back to it, same name stem, or one of four frozen name pairs); the sampling chain is shared and backend independent; small/FFT64-big/NTT120-big siblings agree on limb coverage; every target_feature kernel with a `len >> k` trip count handles the remainder; AVX normalisation step kernels apply the digit/carry helpers per lsh branch as often as their reference twins. Bit-equality of kernel arithmetic is not decided.",
+         "Wiring agreement on MIR of the AVX configuration the test suite never compiles: all 208 HalImpl methods of the Ref and AVX backend of each family forward to the same shared shape function (one reasoned exception); kernel-trait tables agree and each of ~100 AVX kernel methods is the twin of the Ref kernel (same function, falls back to it, same name stem, or one of four frozen name pairs); the sampling chain is shared and backend independent; small/FFT64-big/NTT120-big siblings agree on limb coverage; every target_feature kernel with a `len >> k` trip count handles the remainder; AVX normalisation step kernels apply the digit/carry helpers per lsh branch as often as their reference twins; in-place and out-of-place forms of an AVX kernel use the same arithmetic intrinsics (BK-7); reference-inline kernels are matched with same-name AVX callees receiving the parameters in order. Bit-equality of kernel arithmetic is not decided.",
          "DESIGN.md §3 C10",
          "Trusted: arithmetic inside matched twins; FFT64 vs NTT120 numerical agreement.",
          "impl-table / call-graph comparison across backends + loop-remainder and helper-skeleton analysis of SIMD kernels", True),
